@@ -192,12 +192,14 @@ fn token_grammar(run: &Run, maxtok: usize) -> u64 {
             x /= toks.len() as u64;
         }
         n.fetch_add(1, Ordering::Relaxed);
+        crate::watchdog::enter("token-grammar input", json!({"bytes": crate::util::hex(&input)}));
         let base = alloc::begin();
         let r = guarded(|| {
             let mut c = Cursor::new(&input[..]);
             rml_amf0::deserialize(&mut c).is_ok()
         });
         let peak = alloc::peak_since(base);
+        crate::watchdog::leave();
         match r {
             Err(p) => run.violation("C14/panic/token-grammar", &format!("{} on {}", p, crate::util::hex(&input)), json!({"bytes": crate::util::hex(&input)})),
             Ok(_) => {
@@ -314,7 +316,15 @@ pub fn run(run: &Run) {
             }
         });
     });
-    let g = token_grammar(run, if thorough { 5 } else { 4 });
+    // in-process part: skipped when the child-process cases already failed (a decoder that hangs or overflows there
+    // would take this process down or stall it); a call that does not return within the cap ends the run with a verdict
+    let g = if run.violation_count() == 0 {
+        crate::watchdog::start("C14", "C14/hang/token-grammar", if thorough { 60.0 } else { 20.0 });
+        token_grammar(run, if thorough { 5 } else { 4 })
+    } else {
+        run.cap_hit("token grammar skipped: the child-process cases already reported violations");
+        0
+    };
     let total = cases.len() as u64 + g;
     run.set("evaluations", json!(total));
     run.set("distinct_nontrivial", json!(total));
